@@ -95,6 +95,8 @@ def run(tier, seed, budget=None):
     with ThreadPoolExecutor(max_workers=max(1, core.ncpu() - 2)) as ex:
         results = list(ex.map(lambda j: (j[0],) + _run_bin(binary, j[1], env=j[2]), jobs))
     outcomes = {}
+    if sum(1 for r in results if r[1] == "inconclusive") * 2 > len(results):
+        rep.undecided = "most harness processes exceeded their budget (even without shrinking): nothing was decided"
     for name, outcome, rc, text, res, st in results:
         outcomes[outcome] = outcomes.get(outcome, 0) + 1
         if outcome == "stuck":
